@@ -31,7 +31,41 @@ def ofBSel : TB.BSel → SExp
   | .col c => .list [.atom "col", .atom (toString c)]
   | .sl s => ofSlice s
 
+/-- dtype resolution as a finite table `((a b r) ...)` supplied by the harness (answers of the real
+    `util.resolve_dtype`); a pair missing from the table resolves to the marker `?` (never equal to a
+    real dtype token, so a gap shows up as a disagreement) -/
+def resolveTable? : SExp → Option (DT → DT → DT)
+  | .list es => do
+      let rows ← es.mapM fun e => match e with
+        | .list [.atom a, .atom b, .atom r] => some ((a, b), r)
+        | _ => none
+      pure fun a b => match rows.lookup (a, b) with | some r => r | none => "?"
+  | _ => none
+
+def cacheOp? : SExp → Option (CacheOp String)
+  | .list [.atom "append", b] => (block? b).map .append
+  | .list (.atom "extend" :: bs) => (bs.mapM block?).map .extendIter
+  | .list (.atom "extendtb" :: r :: bs) => do
+      let r ← nat? r
+      let bs ← bs.mapM block?
+      pure (.extend ⟨r, bs⟩)
+  | _ => none
+
+def ofCaches (c : Caches) (outcomes : List (Option Err)) : SExp :=
+  .list [ofNats [c.shape.1, c.shape.2],
+         .list (c.index.map fun (b, i) => ofNats [b, i]),
+         ofAtoms c.dtypes,
+         .atom (match c.rowDtype with | none => "N" | some d => d),
+         .list (outcomes.map fun o => .atom (match o with | none => "ok" | some e => e.toString))]
+
 def blocksOps : List SExp → Option String
+  | [.atom "tb.caches", ref, .list bs, table, .list ops] => do
+      let ref ← optInt? ref
+      let bs ← bs.mapM block?
+      let resolve ← resolveTable? table
+      let ops ← ops.mapM cacheOp?
+      pure (answer ((Grown.ofBlocks resolve bs (ref.map Int.toNat)).map fun g =>
+        ofCaches (g.run ops).caches (g.runErrs ops)))
   | [.atom "tb.extract", t, rk, ck] => do
       let t ← tb? t; let rk ← key? rk; let ck ← key? ck
       pure (answer ((t.extract rk ck).map ofTB))
